@@ -82,4 +82,12 @@ MCNext ==
 MCView == vars
 Emit == PrintT(<<"H", ToJson(hist')>>)
 Bounded == D.counter <= MaxCounter
+
+\* Reachability witnesses for rarely taken branches (used by tools/props/c11.py, stage "rare-branch witnesses"):
+\* TLC is asked to REFUTE "this branch is never about to be taken"; the history of the shortest counterexample is a
+\* schedule that drives the real code into the branch.  (PrintT is TRUE, so the implication is FALSE exactly there.)
+\* A CAS on the desired counter that is about to fail AND has to be retried (another agent raised the desired counter
+\* between this agent's load and its CAS, but not far enough): needs three registrations around a period change.
+CasRetryAhead == \E a \in Agents : ag[a].pc = "a3" /\ D.desired # ag[a].c /\ D.desired < ag[a].target
+NoCasRetryWitness == CasRetryAhead => ~PrintT(<<"W", ToJson(hist)>>)
 =============================================================================
